@@ -292,8 +292,14 @@ func genTxtRules(r *vh.Rand, vals []string) *TxtRules {
 // with descriptions (now and then one the reader treats specially)
 func genProp04(r *vh.Rand, name string) genDecl {
 	gd := genProp(r, name, "all")
-	if gd.P.PK == PSingle && !gd.P.Opt && r.Chance(6) && gd.P.T.Kind != TOneof && gd.P.T.Kind != TAny {
+	if gd.P.PK == PSingle && !gd.P.Opt && r.Chance(8) && gd.P.T.Kind != TOneof && gd.P.T.Kind != TAny {
 		gd.P.PK = PMap
+		if r.Chance(60) {
+			mr := &MapRules{Min: smallLen(r), Max: smallLen(r)}
+			if mr.Min != nil || mr.Max != nil {
+				gd.P.MapR = mr
+			}
+		}
 	}
 	if gd.P.Desc != "" && r.Chance(10) {
 		gd.P.Desc = vh.Pick(r, []string{"# not a description", "two  spaces", "ends with space "})
@@ -331,6 +337,22 @@ func genProp(r *vh.Rand, name string, scope string) genDecl {
 		}
 		if r.Chance(20) {
 			p.Single = ptr("item")
+		}
+	}
+	if p.PK == PSingle && scope == "c12" && r.Chance(8) && t.Kind < TFloat {
+		p.PK = PMap
+		p.T.List = nil // list rules of map values are not read back (C04 known finding), irrelevant here
+		if p.T.Kind == TKey {
+			p.T.Entity = nil
+		}
+	}
+	if p.PK == PMap && r.Chance(60) {
+		mr := &MapRules{Min: smallLen(r), Max: smallLen(r)}
+		if mr.Min != nil && mr.Max != nil && *mr.Min > *mr.Max {
+			*mr.Min, *mr.Max = *mr.Max, *mr.Min
+		}
+		if mr.Min != nil || mr.Max != nil {
+			p.MapR = mr
 		}
 	}
 	switch r.Intn(5) {
@@ -657,6 +679,46 @@ func fieldValues(r *vh.Rand, p Prop) []FValue {
 		}
 		// map iteration order above is random: sort for determinism
 		sortFValues(out)
+	case PMap:
+		if len(vals) == 0 {
+			return nil
+		}
+		out = append(out, FValue{IsMap: true})
+		lens := map[int]bool{1: true, 2: true}
+		if p.MapR != nil {
+			for _, b := range []*uint64{p.MapR.Min, p.MapR.Max} {
+				if b != nil {
+					for d := -1; d <= 1; d++ {
+						if n := int(*b) + d; n > 0 {
+							lens[n] = true
+						}
+					}
+				}
+			}
+		}
+		var ns []int
+		for n := range lens {
+			ns = append(ns, n)
+		}
+		sort.Ints(ns)
+		mk := func(l []Value) FValue {
+			f := FValue{IsMap: true, List: l}
+			for i := range l {
+				f.Keys = append(f.Keys, fmt.Sprintf("k%d", i))
+			}
+			return f
+		}
+		for _, n := range ns {
+			var l []Value
+			perm := r.Intn(len(vals))
+			for i := 0; i < n; i++ {
+				l = append(l, vals[(perm+i)%len(vals)])
+			}
+			out = append(out, mk(l))
+		}
+		for _, v := range vals {
+			out = append(out, mk([]Value{v}))
+		}
 	}
 	return out
 }
